@@ -4,6 +4,7 @@ package sym
 // stdlib leaves, and pattern-stubbed packages (logging, metrics).
 
 import (
+	"crypto/sha256"
 	"fmt"
 	"go/types"
 	"path"
@@ -988,4 +989,27 @@ func extParseInt(signedFn bool) externalFn {
 func init() {
 	externals["strconv.ParseInt"] = extParseInt(true)
 	externals["strconv.ParseUint"] = extParseInt(false)
+}
+
+func init() {
+	// SHA-256 of concrete bytes is computed natively (the implementation is assembly); symbolic input is unsupported
+	// here: harnesses abstract digests through the go-digest Verifier model instead.
+	externals["crypto/sha256.Sum256"] = func(fr *frame, a []value) value {
+		i := fr.i
+		xs := a[0].([]value)
+		b := make([]byte, len(xs))
+		for j, e := range xs {
+			ev := e.(ival)
+			if !ev.t.IsConst() {
+				i.unsupported("sha256.Sum256 of symbolic bytes")
+			}
+			b[j] = byte(ev.t.val)
+		}
+		sum := sha256.Sum256(b)
+		r := make(array, 32)
+		for j := range r {
+			r[j] = i.mkByte(sum[j])
+		}
+		return r
+	}
 }
